@@ -62,6 +62,18 @@ func (f *faultReader) Read(p []byte) (int, error) {
 }
 func (f *faultReader) Close() error { return nil }
 
+type cutReader struct{ b []byte }
+
+func (c *cutReader) Read(p []byte) (int, error) {
+	if len(c.b) == 0 {
+		return 0, io.ErrUnexpectedEOF
+	}
+	n := copy(p, c.b)
+	c.b = c.b[n:]
+	return n, nil
+}
+func (c *cutReader) Close() error { return nil }
+
 func (g *gateBucket) NewRangeReaderEtag(ctx context.Context, key string, off, l int64, etag string) (io.ReadCloser, string, int, error) {
 	c := &gateCall{key: key, off: off, len: l, etag: etag, release: make(chan string, 1)}
 	g.mu.Lock()
@@ -118,6 +130,8 @@ func (g *gateBucket) NewRangeReaderEtag(ctx context.Context, key string, off, l 
 		}
 	case outcome == "empty":
 		body = nil
+	case outcome == "cutoff": // the transport delivers part of the range and then reports the truncation (what net/http does when a connection drops)
+		return &cutReader{b: append([]byte(nil), body[:len(body)/2]...)}, o.tag, 206, nil
 	case outcome == "garbage":
 		body = bytes.Repeat([]byte{0xa5}, len(body))
 	}
